@@ -140,3 +140,55 @@ class Mir:
 
         operand(op)
         return acc
+
+
+# ---------------------------------------------------------------- boolean guards
+def bool_source(m, op, depth=0):
+    """Follow a bool operand back through copies/moves and `!` to the local that a call wrote.
+    -> (local, number of negations) or None"""
+    if op.get("o") not in ("copy", "move") or "p" in op["pl"] or depth > 10:
+        return None
+    l = op["pl"]["l"]
+    defs = m.defs.get(l, [])
+    if len(defs) != 1:
+        return (l, 0)
+    (bi, kind, payload, _st) = defs[0]
+    if kind == "call":
+        return (l, 0)
+    rv = payload
+    if rv.get("rv") == "use" and isinstance(rv.get("op"), dict):
+        r = bool_source(m, rv["op"], depth + 1)
+        return r if r else (l, 0)
+    if rv.get("rv") == "unop" and rv.get("op") == "Not":
+        r = bool_source(m, rv["a"], depth + 1)
+        if r:
+            return (r[0], r[1] + 1)
+    return (l, 0)
+
+
+def guarded_blocks(m, dest_local, want_true):
+    """Blocks that execute only when the bool written to `dest_local` is `want_true`: blocks dominated by the
+    corresponding successor of a switch on (a copy / negation of) that local, where that successor has the switch
+    block as its only predecessor.  Returns (set of blocks, [switch block indices])."""
+    heads = []
+    switches = []
+    for i, blk in enumerate(m.blocks):
+        t = blk["term"]
+        if t.get("k") != "switch":
+            continue
+        src = bool_source(m, t["discr"])
+        if not src or src[0] != dest_local:
+            continue
+        switches.append(i)
+        zero = [tg for (v, tg) in t["targets"] if str(v) == "0"]
+        nonzero = [tg for (v, tg) in t["targets"] if str(v) != "0"] + [t["otherwise"]]
+        value_true = nonzero if src[1] % 2 == 0 else zero
+        value_false = zero if src[1] % 2 == 0 else nonzero
+        for tg in (value_true if want_true else value_false):
+            if m.pred[tg] == [i] or set(m.pred[tg]) == {i}:
+                heads.append(tg)
+    out = set()
+    for b in range(m.n):
+        if any(m.dominates(h, b) for h in heads):
+            out.add(b)
+    return out, switches
